@@ -11,6 +11,10 @@ EXTENDS HierVec, Json, IOUtils, TLC
 
 Trace == ndJsonDeserialize("trace.ndjson")
 
+\* every unexplained event is recorded; only the first 100 with details (the state would otherwise grow
+\* quadratically when most of a trace is unexplained)
+Note(b, x) == IF Len(b) < 100 THEN Append(b, x) ELSE Append(b, [event |-> x.event])
+
 VARIABLES l, bad
 vars == <<l, bad>>
 
@@ -20,9 +24,11 @@ Expected(ev) == Vec(ev.n, [x \in 1..ev.n |-> SeqSet(ev.par[x])], SeqSet(ev.prese
 
 Init == l = 1 /\ bad = <<>>
 Next == /\ l <= Len(Trace)
-        /\ LET exp == Expected(Trace[l]) IN
-           bad' = IF Trace[l].obs = exp THEN bad
-                  ELSE Append(bad, [event |-> l, exp |-> exp,
+        \* (bound by a quantifier, not by LET: TLC would re-evaluate a LET definition at every use)
+        /\ \E exp \in {Expected(Trace[l])} :
+           \* obs = <<-3>>: the harness skipped the case after earlier non-terminating ones (not judged)
+           bad' = IF Trace[l].obs = exp \/ Trace[l].obs = <<-3>> THEN bad
+                  ELSE Note(bad, [event |-> l,
                                     idx |-> IF Len(Trace[l].obs) # Len(exp) THEN <<>>
                                             ELSE { i \in DOMAIN exp : exp[i] # Trace[l].obs[i] }])
         /\ l' = l + 1
